@@ -305,7 +305,6 @@ func trimSym(w []*Term, pad *Term, left bool) *Bytes {
 	return b.Norm()
 }
 
-
 // c13listRead: the list reader on count n followed by n arbitrary N-byte images: element i must equal the scalar
 // specification (strip only the maximal pad run on the pad side) of image i.
 func c13listRead(c *Ctx, p primInst, N, n int, leftSide bool) {
